@@ -1273,7 +1273,14 @@ def _matchpy(ctx, model):
             frv = fps[0].retval
             ok_cls = frv[0] == "call" and frv[1] == f"p.{n.name}"
             back = {}
-            if ok_cls:
+            if ok_cls and len(frv[2]) == 1 and frv[2][0][0] == "star" and \
+                    _node_attrs(frv[2][0]) == {"operands"} and \
+                    len(opfields) == len(n.field_names):
+                # Node(*<every operand, mapped, in order>): the i-th operand
+                # of a fixed-arity op is its i-th field
+                for f_op, f_node in zip(opfields, n.field_names):
+                    back[f_op] = f_node
+            elif ok_cls:
                 for i, a in enumerate(frv[2]):
                     attrs = sorted(_node_attrs(a))
                     src = attrs[0] if attrs else None
